@@ -7,6 +7,7 @@ import Driver.Sup
 import Driver.SupReload
 import Driver.Comp
 import Driver.Http
+import Driver.Crash
 
 /-! One request per line on stdin, one response per line on stdout.  Unknown or malformed
 requests answer `bad-op` (never a default value). -/
@@ -21,6 +22,7 @@ def dispatch (ws : List String) : String :=
   | "c09holds" :: _ | "c10holds" :: _ | "c11holds" :: _ | "compseq" :: _
   | "known" :: "C09-F1" :: _ => (Driver.Comp.handle ws).getD "bad-op"
   | "c08streamholds" :: _ | "known" :: "C12-F1" :: _ | "c12holds" :: _ | "c13holds" :: _ | "c14holds" :: _ | "c08holds" :: _ | "httpseq" :: _ => (Driver.Http.handle ws).getD "bad-op"
+  | "c19holds" :: _ => (Driver.Crash.handle ws).getD "bad-op"
   | "equal" :: _ | "c13equalholds" :: _ | "member" :: _ | "c11memberholds" :: _ | "iscancel" :: _ | "plan" :: _
   | "planany" :: _ | "c16planholds" :: _ | "known" :: _ => (Driver.Pure.handle ws).getD "bad-op"
   | "lcaccept" :: _ | "c07holds" :: _ => (Driver.Lifecycle.handle ws).getD "bad-op"
